@@ -781,7 +781,7 @@ Proof.
   - intros j i k S Dp Cu. destruct (D j i k S Dp Cu) as [X|X]; auto. right. apply K; auto; discriminate.
   - intros t. rewrite (@hsum_eq W s _ t EJ). apply E.
   - unfold wait_check. destruct (unfinished s =? 0) eqn:U; simpl.
-    + split; [|split]; destruct (failed s); discriminate.
+    + split; [|split]; destruct (fdict s); discriminate.
     + split; [|split]; try discriminate. intros _. apply Z.eqb_neq; auto.
 Qed.
 
@@ -1236,7 +1236,7 @@ Qed.
 
 (* ------------------------------------------------------------------ start attempts (C06: livelock, finding A1 of the audit) *)
 (* the repaired scheduler minus the refusal of over-subscribed jobs at submission (a963860) *)
-Definition f5off := {| fx2 := true; fx3 := true; fx4 := true; fx5 := false; fx6 := true |}.
+Definition f5off := {| fx2 := true; fx3 := true; fx4 := true; fx5 := false; fx6 := true; fx7 := true |}.
 Definition step5 (W : workload) := step_gen W f5off.
 Inductive reach5 (W : workload) : state -> Prop :=
   | r5_init : reach5 W (init W)
